@@ -284,13 +284,11 @@ def run_case(case: dict) -> dict:
                         if isinstance(piece, str):
                             piece = piece.encode("ascii")
                         out += piece
-                    while True:
-                        piece = fp.read()
-                        if isinstance(piece, str):
-                            piece = piece.encode("ascii")
-                        if not piece:
-                            break
-                        out += piece
+                    # one read() to the end, as a caller does it
+                    piece = fp.read() or b""
+                    if isinstance(piece, str):
+                        piece = piece.encode("ascii")
+                    out += piece
             else:
                 raise ValueError(api)
             ev.append({"e": "ret", "data": B(out)})
